@@ -220,6 +220,25 @@ func (e *Engine) havocGuarded(st *State, ref *Term, g guardInfo) {
 	}
 }
 
+// mutexThroughField: a mutex reached through a pointer field (m *sync.RWMutex) is identified with the
+// field that holds the pointer (arg is the SSA expression the receiver was computed from).
+func (e *Engine) mutexThroughField(st *State, fr *Frame, arg ssa.Value, p VPtr) VPtr {
+	if p.L == nil || p.L.Kind != LHeap || len(p.L.Path) != 0 {
+		return p
+	}
+	if u, isLoad := arg.(*ssa.UnOp); isLoad {
+		if fa, isField := u.X.(*ssa.FieldAddr); isField {
+			if owner, isPtr := e.val(st, fr, fa.X).(VPtr); isPtr && owner.L != nil && owner.L.Kind == LHeap {
+				nl := *owner.L
+				nl.Path = append(append([]pathStep(nil), owner.L.Path...), pathStep{Field: fa.Field})
+				e.Assumptions["a mutex held through a pointer field is identified with that field (the pointer is set once by the constructor)"] = true
+				return VPtr{L: &nl, Elem: p.Elem}
+			}
+		}
+	}
+	return p
+}
+
 // lockIntrinsic handles sync.(RW)Mutex methods on a guarded struct's mutex field.
 func (e *Engine) lockIntrinsic(st *State, fr *Frame, x *ssa.Call, name string, args []Val) bool {
 	var op string
@@ -236,27 +255,24 @@ func (e *Engine) lockIntrinsic(st *State, fr *Frame, x *ssa.Call, name string, a
 		return false
 	}
 	p, ok := args[0].(VPtr)
-	if ok && p.L != nil && p.L.Kind == LHeap && len(p.L.Path) == 0 && x != nil && len(x.Call.Args) > 0 {
-		// mutex reached through a pointer field (m *sync.RWMutex): identify it with the field that holds it
-		if u, isLoad := x.Call.Args[0].(*ssa.UnOp); isLoad {
-			if fa, isField := u.X.(*ssa.FieldAddr); isField {
-				if owner, isPtr := e.val(st, fr, fa.X).(VPtr); isPtr && owner.L != nil && owner.L.Kind == LHeap {
-					nl := *owner.L
-					nl.Path = append(append([]pathStep(nil), owner.L.Path...), pathStep{Field: fa.Field})
-					p = VPtr{L: &nl, Elem: p.Elem}
-					e.Assumptions["a mutex held through a pointer field is identified with that field (the pointer is set once by the constructor)"] = true
-				}
-			}
-		}
+	if ok && x != nil && len(x.Call.Args) > 0 {
+		p = e.mutexThroughField(st, fr, x.Call.Args[0], p)
 	}
 	if !ok || p.L == nil || p.L.Kind != LHeap || len(p.L.Path) < 1 {
 		panic(unsupported("mutex that is not a field of a heap object"))
 	}
+	// every 'guarded T.f by T.m' line that names this mutex contributes its field (one line per field is
+	// the usual way to write it): the guarded state of the mutex is the union
 	var g *guardInfo
 	for _, gi := range e.guardsFor(p.L.Base) {
 		if len(gi.mutex) == len(p.L.Path) && pathHasPrefix(p.L.Path, gi.mutex) {
 			gi := gi
-			g = &gi
+			if g == nil {
+				g = &gi
+				continue
+			}
+			g.fields = append(append([][]int(nil), g.fields...), gi.fields...)
+			g.ftypes = append(append([]types.Type(nil), g.ftypes...), gi.ftypes...)
 		}
 	}
 	if g == nil {
